@@ -137,20 +137,47 @@ def gen_cases(seed, n, limit=32, prefix="g"):
             E = E2
         touched = set(u for e in E for u in e)
         decl = [x for x in names if x not in touched or rng.chance(1, 2)]
-        edges = [[u, v, None, None] for (u, v) in E]
+        # every third case also calls the weighted forms: positive weights that are perfect cubes
+        # (so that every cube root of a product of normalised weights is rational - exact in the
+        # model); now and then one edge without weight (EdgeWeightNotSpecified)
+        weighted = 1 if i % 3 == 2 else 0
+        if weighted:
+            wpool = rng.pick([[1, 8, 27, 64], [1, 8], [8], [1, 27, 64], [8, 27]])
+            edges = [[u, v, rng.pick(wpool), None] for (u, v) in E]
+            if edges and rng.chance(1, 8):
+                edges[rng.below(len(edges))][2] = None
+        else:
+            edges = [[u, v, None, None] for (u, v) in E]
         absent = max(names) + 1 + rng.below(3)
         lim = limit if spec[1] == 0 else 4
+        if weighted:
+            lim = min(lim, 12)
         out.append({"id": "%s%d" % (prefix, i), "spec": list(spec), "shape": shape,
-                    "nodes": [[x, None] for x in decl], "edges": edges, "weighted": 0,
+                    "nodes": [[x, None] for x in decl], "edges": edges, "weighted": weighted,
                     "subs": subsets_of(rng, names, absent, lim)})
     return out
 
 
 # ---------------------------------------------------------------- brute-force definitions
+def stored_weights(edges, directed, dedupe):
+    """weight stored for each adjacent pair of a single-edge graph (KeepFirst / KeepLast; with
+    dedupe=Error the list has no repeated pair); undirected pairs under both orientations"""
+    W = {}
+    for e in edges:
+        u, v, w = e[0], e[1], e[2]
+        keys = [(u, v)] if directed else [(u, v), (v, u)]
+        for k in keys:
+            if k in W and dedupe == 1:
+                continue
+            W[k] = w
+    return W
+
+
 class Defs:
-    def __init__(self, names, pairs, directed):
+    def __init__(self, names, pairs, directed, weights=None):
         self.names = list(names)
         self.directed = directed
+        self.W = weights or {}
         arcs = set((u, v) for (u, v) in pairs if u != v and u in names and v in names)
         self.arcs = arcs
         self.N = {v: set() for v in names}           # neighbours ignoring direction, never v itself
@@ -206,6 +233,33 @@ class Defs:
         if t2 == 0:
             return Fraction(0)
         return Fraction(t2, 2 * (dtot * (dtot - 1) - 2 * dbi))
+
+
+    # ---- weighted forms (floats: cube roots) ----
+    def what(self, u, v):
+        mx = max(w for w in self.W.values())
+        return self.W[(u, v)] / mx
+
+    def cc_weighted(self, v):
+        d = len(self.N[v])
+        if d < 2:
+            return 0.0
+        t = 0.0
+        for a, b in itertools.combinations(sorted(self.N[v]), 2):
+            if b in self.N[a]:
+                t += (self.what(v, a) * self.what(v, b) * self.what(a, b)) ** (1.0 / 3.0)
+        return 2.0 * t / (d * (d - 1))
+
+    def fagiolo_weighted(self, i):
+        def c(x, y):
+            return self.what(x, y) ** (1.0 / 3.0) if (x, y) in self.arcs else 0.0
+        s = lambda x, y: c(x, y) + c(y, x)
+        t2 = sum(s(i, j) * s(j, k) * s(k, i) for j in self.names for k in self.names)
+        dtot = sum(self.a(i, j) + self.a(j, i) for j in self.names)
+        dbi = sum(self.a(i, j) * self.a(j, i) for j in self.names)
+        if t2 == 0:
+            return 0.0
+        return t2 / (2 * (dtot * (dtot - 1) - 2 * dbi))
 
 
 def close(x, q, tol=1e-9):
@@ -278,8 +332,11 @@ class ClusterProp(props.BaseProp):
         head, blocks = split_blocks(o)
         names = [r for k, r, f in head if k == 2][0][0]
         directed, multi = c["spec"][0] == 1, c["spec"][1] == 1
-        D = Defs(names, [(e[0], e[1]) for e in c["edges"]], directed)
+        kept = [e for e in c["edges"] if not (c["spec"][2] == 0 and e[0] == e[1])]  # dropped self-loops
+        D = Defs(names, [(e[0], e[1]) for e in c["edges"]], directed,
+                 stored_weights(kept, directed, c["spec"][3]))
         nameset = set(names)
+        all_weighted = all(w is not None for w in D.W.values())   # the STORED edges (after dedupe)
 
         def unit(x):
             return not (isinstance(x, float) and math.isnan(x)) and -1e-12 <= x <= 1 + 1e-12
@@ -296,6 +353,7 @@ class ClusterProp(props.BaseProp):
             msgs.append("transitivity %r, definition %s" % (tv[1][0], D.transitivity()))
 
         full = None
+        full_w = None
         for idx, b in blocks:
             nn = None if idx < 0 else c["subs"][idx]
             what = "node_names=%s" % ("None" if nn is None else nn)
@@ -317,6 +375,38 @@ class ClusterProp(props.BaseProp):
                 msgs.append("average_clustering(%s): codes %d/%d, expected %d" % (what, c34, c35, exp_cl))
             if not has_absent and c40 != 0:
                 msgs.append("square_clustering(%s): outcome code %d (must not panic)" % (what, c40))
+            # ---- weighted forms, when called: refusals, definition, range, mean
+            if 42 in b:
+                c42, c44, c45 = (b[k][0][0][0] for k in (42, 44, 45))
+                exp_w = WM if multi else (NF if has_absent else (8 if not all_weighted else 0))
+                if c42 != exp_w or c44 != exp_w or c45 != exp_w:
+                    msgs.append("weighted clustering/average(%s): codes %d/%d/%d, expected %d"
+                                % (what, c42, c44, c45, exp_w))
+                elif exp_w == 0:
+                    clw = {r[0]: f for r, f in zip(*b[1043])}
+                    if sorted(clw) != sorted(set(req)):
+                        msgs.append("weighted clustering(%s): keys %s" % (what, sorted(clw)))
+                    for v in clw:
+                        want = D.fagiolo_weighted(v) if directed else D.cc_weighted(v)
+                        if not close(clw[v], want, 1e-9) and abs(clw[v] - want) > 1e-12:
+                            msgs.append("weighted clustering(%s)[%d] = %r, definition %r" % (what, v, clw[v], want))
+                        if not unit(clw[v]):
+                            msgs.append("weighted clustering(%s)[%d] = %r outside [0,1]" % (what, v, clw[v]))
+                    for kind, cz in ((44, True), (45, False)):
+                        rows, fl = b[kind]
+                        counted = [x for x in clw.values() if cz or abs(x) > 0.0]
+                        if not counted:
+                            if rows[0][1] != 1:
+                                msgs.append("weighted average(%s,%s): nothing counted but a value returned" % (what, cz))
+                        elif rows[0][1] != 0 or abs(fl[0] - sum(counted) / len(counted)) > 1e-9:
+                            msgs.append("weighted average(%s,%s) = %s, mean %r" % (what, cz, fl, sum(counted) / len(counted)))
+                    if nn is None:
+                        full_w = clw
+                    elif full_w is not None:
+                        for v in clw:
+                            if v in full_w and abs(clw[v] - full_w[v]) > 1e-12:
+                                msgs.append("weighted clustering restricted to %s gives %r for node %d, the full "
+                                            "computation %r" % (nn, clw[v], v, full_w[v]))
             if has_absent or msgs:
                 if msgs:
                     return msgs[:4]
@@ -408,7 +498,8 @@ class ClusterProp(props.BaseProp):
 
     def stats_key(self, c, o):
         ks = ["directed_%d" % c["spec"][0], "multi_%d" % c["spec"][1], "shape_" + c.get("shape", "replay"),
-              "construct_%d" % o[0][1][0][0], "nsubsets_%d" % (len(c["subs"]) // 8 * 8)]
+              "construct_%d" % o[0][1][0][0], "nsubsets_%d" % (len(c["subs"]) // 8 * 8),
+              "weighted_%d" % c.get("weighted", 0)]
         for k, rows, f in o:
             if k == 2:
                 ks.append("n_%d" % len(rows[0]))
